@@ -1,5 +1,6 @@
 import WhatIs.Base.Info
 import WhatIs.Model.PgpFrame
+import WhatIs.Model.Pgp
 /-
   Oracle/C12.lean — `pgp <binary key> G <fp keyid alg size curve> <nIds> (name usage created expires)* <nSubs>
                         (fp keyid alg size curve usage created expires)* [M <owner> …]`
@@ -130,7 +131,21 @@ def holdsMutated (g : GT) (owner : String) (mutName : Bytes) (impl : Option Info
       | none => "FAILS oracle record"
 
 def handle (op : String) (args : List String) (impl : String) : Option (String × String) :=
-  if op = "pgpframes" then
+  if op = "pgpdates" then
+    -- pgpdates <key created> <signature created> <lifetime|-> => <Created> <Expires>
+    match args with
+    | [kc, sc, lt] =>
+      match kc.toNat?, sc.toNat? with
+      | some kc, some sc =>
+        let l := if lt == "-" then none else lt.toNat?
+        let model := (Pgp.createdText sc).toString ++ " " ++ (Pgp.expiresText kc l).toString
+        -- spec side (RFC 4880 5.2.3.6): absent or zero = never, else key creation + lifetime, as a UTC date
+        let spec := (Civil.fmtDate ((sc : Int) / 86400)).toString ++ " " ++
+          (match l with | none => "never" | some 0 => "never" | some n => (Civil.fmtDate (((kc + n : Nat) : Int) / 86400)).toString)
+        some (model, if impl == spec then "holds" else s!"FAILS dates: shown '{impl}', the key and its self-signature encode '{spec}'")
+      | _, _ => none
+    | _ => none
+  else if op = "pgpframes" then
     -- pgpframes <data> => <clean|error> <n> (<tag> <body>)* : the framing layer of the copied reader vs Model/PgpFrame
     match args with
     | [data] =>
